@@ -28,6 +28,8 @@ func rdGenReaders(root *pkgSrc) {
 	b.WriteString("import Mcp.Model.Readers\nnamespace Mcp.Gen\n")
 	b.WriteString("/-- client readers: GET-stream line limit (`bufio.Scanner`), endpoint latch guarded, stdio loop after a decode error. -/\n")
 	fmt.Fprintf(&b, "def rdFacts : Mcp.Readers.Facts := ⟨%s, %s, .%s⟩\n", limit, leanBool(guarded), onErr)
+	b.WriteString("/-- streamable client: only ids that are valid HTTP header field values are stored in `lastEventID` / sent as `Last-Event-ID`. -/\n")
+	fmt.Fprintf(&b, "def rdIdChecked : Bool := %s\n", leanBool(rdIdChecked(root)))
 	b.WriteString("end Mcp.Gen\n")
 	writeIfChanged("ReaderFacts.lean", b.String())
 }
@@ -231,6 +233,78 @@ func rdLatchGuarded(root *pkgSrc) bool {
 		}
 	}
 	return closes > 0 && closes == guarded
+}
+
+// rdIdChecked: streamable_client.go — the `id:` value of an SSE event only reaches the Last-Event-ID header when it is a valid
+// header field value.  Recognised shapes (anything else = false):
+//
+//	(a) every assignment `t.lastEventID = X` of the transport's methods either assigns the result of a call to a function whose
+//	    name says so (…valid… / …sanitiz… / …safe…, case-insensitive: `t.lastEventID = sanitizeEventID(x)`), or sits in the body
+//	    of an `if` whose condition calls such a function; assigning a literal "" is always fine;
+//	(b) or every `Header.Set(httputil.LastEventIDHeader | "Last-Event-ID", t.lastEventID)` sits in the body of an `if` / in the
+//	    clause of an `else if` whose condition calls such a function.
+func rdIdChecked(root *pkgSrc) bool {
+	says := func(name string) bool {
+		n := strings.ToLower(name)
+		return strings.Contains(n, "valid") || strings.Contains(n, "sanitiz") || strings.Contains(n, "safe")
+	}
+	callSays := func(e ast.Node) bool {
+		found := false
+		ast.Inspect(e, func(m ast.Node) bool {
+			if c, ok := m.(*ast.CallExpr); ok {
+				t := root.text(c.Fun)
+				if i := strings.LastIndex(t, "."); i >= 0 {
+					t = t[i+1:]
+				}
+				if says(t) {
+					found = true
+				}
+			}
+			return true
+		})
+		return found
+	}
+	guardedByIf := func(stack []ast.Node) bool {
+		for i, a := range stack {
+			if x, ok := a.(*ast.IfStmt); ok && i+1 < len(stack) && stack[i+1] == ast.Node(x.Body) && callSays(x.Cond) {
+				return true
+			}
+		}
+		return false
+	}
+	assigns, okAssigns, sets, okSets := 0, 0, 0, 0
+	for _, fn := range root.sortedFiles() {
+		for _, d := range root.files[fn].Decls {
+			fd, ok := d.(*ast.FuncDecl)
+			if !ok || fd.Body == nil || !strings.HasPrefix(funcName(fd), "streamableHTTPClientTransport.") {
+				continue
+			}
+			rdParents(fd.Body, func(n ast.Node, stack []ast.Node) {
+				switch x := n.(type) {
+				case *ast.AssignStmt:
+					for i, l := range x.Lhs {
+						if !strings.HasSuffix(root.text(l), ".lastEventID") || strings.HasPrefix(root.text(l), "options.") || i >= len(x.Rhs) {
+							continue
+						}
+						assigns++
+						if root.text(x.Rhs[i]) == `""` || callSays(x.Rhs[i]) || guardedByIf(stack) {
+							okAssigns++
+						}
+					}
+				case *ast.CallExpr:
+					if strings.HasSuffix(root.text(x.Fun), "Header.Set") && len(x.Args) == 2 &&
+						(strings.Contains(root.text(x.Args[0]), "LastEventIDHeader") || strings.Contains(root.text(x.Args[0]), "Last-Event-ID")) &&
+						strings.HasSuffix(root.text(x.Args[1]), "t.lastEventID") {
+						sets++
+						if guardedByIf(stack) {
+							okSets++
+						}
+					}
+				}
+			})
+		}
+	}
+	return (assigns > 0 && assigns == okAssigns) || (sets > 0 && sets == okSets)
 }
 
 func rdLastBranch(root *pkgSrc, body *ast.BlockStmt) string {
